@@ -175,11 +175,15 @@ class History:
         self._user_wrapped = set()
         self._failed_group_scopes = set()
         self._dirty_finish = set()
+        self._late_started = set()
+        self._native_in_gexit = set()
+        self._routed_exact = {}
         self._own_cancel_finish = set()
         self._group_scope = group_scope
         pre_started_end: set[int] = set()
         enter_info: dict[int, tuple] = {}         # sid -> (task, ncancel at entry, step)
         ext_events: list[tuple] = []              # (step, task): native cancel / uncancel
+        self._ext_events = ext_events
         shield_events: list[int] = []             # steps at which a shield flag was assigned
         exited: dict[int, int] = {}
         explicit_cancel: set[int] = set()
@@ -239,6 +243,11 @@ class History:
                     start_child[t] = ch
                 if c == S.STARTED and res[0] == "ret" and t in via_start and t not in started_val:
                     started_val[t] = b
+                    st_ = via_start[t]
+                    if not (st_ in pending and pending[st_][0][0] == S.START and start_child.get(st_) == t
+                            and st_ not in start_joining and (2000 + st_) not in prev["ready"]
+                            and not prev["tasks"][st_]["must"]):
+                        self._late_started.add(t)      # the caller had already been interrupted / was gone
                 if res[0] == "blocked":
                     pending[t] = (op, i, prev, hb)
                     if c == S.CKIF:
@@ -255,6 +264,9 @@ class History:
                     completions.append((t, op, res, prev, hb))
             elif c == S.NATIVECANCEL:
                 ext_events.append((i, a))
+                if a in pending and pending[a][0][0] == S.GEXIT and prev["tasks"][a]["state"] == 2 \
+                        and (2000 + a) not in prev["ready"] and not prev["tasks"][a]["must"]:
+                    self._native_in_gexit.add(a)      # interrupts the host inside __aexit__ (join or checkpoint)
                 if prev["tasks"].get(a, {}).get("state", 9) < 3:
                     native_out[a] = native_out.get(a, 0) + 1
             elif c == S.EXTCANCEL:
@@ -302,9 +314,16 @@ class History:
                     to_starter = still_waiting
                     if to_starter:
                         self.flags.add("child_outcome_to_starter")
+                        if t not in self._dirty_finish:
+                            if t in self._own_cancel_finish or (fw and fw[0] == "ret"):
+                                self._routed_exact[t] = (i, [3000])
+                            elif fw and fw[0] == "exc" and fw[1]:
+                                self._routed_exact[t] = (i, sorted(fw[1][1]))
                         gs = group_scope.get(g_)
                         if gs and snap["scopes"][gs]["cancelled"] and not prev["scopes"][gs]["cancelled"]:
                             self.v("C07", f"step {i}: group {g_} was cancelled because child {t} ended before calling started()")
+                if g_ is not None and errs and not to_starter and g_ in left_at and g_ not in tainted_groups:
+                    self.v("C02", f"step {i}: child {t} of group {g_} raised {errs} after the group's block had already finished at step {left_at[g_]}: the error can no longer surface")
                 if g_ is not None and errs and not to_starter:
                     expected.setdefault(g_, []).extend(errs)
                     self.flags.add("member_error")
@@ -333,9 +352,22 @@ class History:
                     group_scope[r[1]] = len(snap["scopes"])
                 if c0 == S.ENTER and r[0] == "ret":
                     enter_info[b0] = (t, snap0["tasks"][t]["ncancel"], i)
+                if c0 in (S.FAILAT, S.NEWSCOPE) and r[0] == "ret" and r[1] in snap["scopes"]:
+                    got_sh = bool(snap["scopes"][r[1]]["shield"])
+                    if got_sh != bool(d0):
+                        self.v("C04", f"step {i}: scope {r[1]} was created with shield={bool(d0)} through the public constructor but reports shield={got_sh}: code inside it is {'not ' if d0 else ''}protected from outer cancellation")
+                    want_dl = -1 if b0 < 0 else b0
+                    if snap["scopes"][r[1]]["deadline"] != want_dl:
+                        self.v("C06", f"step {i}: scope {r[1]} was created with deadline {want_dl} but reports {snap['scopes'][r[1]]['deadline']}")
                 if c0 == S.FAILAT and r[0] == "ret":
                     enter_info[r[1]] = (t, snap0["tasks"][t]["ncancel"], i)
                     failat_scopes.add(r[1])
+                if c0 == S.GEXIT and t in self._native_in_gexit:
+                    self._native_in_gexit.discard(t)
+                    self.flags.add("native_cancel_inside_aexit")
+                    lv = list(r[2]) if r[0] == "exc" else []
+                    if 1000 not in lv and not any(x >= 2000 for x in lv):
+                        self.v("C04", f"step {i}: a native cancellation interrupted task {t} inside the __aexit__ of group {b0} (no error was pending), but it did not come out of the block: result {r}")
                 if c0 == S.GEXIT:
                     self.on_group_left(b0, r, snap, i, members, expected, finished_with)
                     if not snap["scopes"][group_scope.get(b0, 0)]["active"] if group_scope.get(b0) else True:
@@ -442,6 +474,12 @@ class History:
         elif res[0] == "exc":
             child = snap["tasks"][ch]
             cancels = [x for x in res[2] if is_cancel_code(x)]
+            if ch in self._routed_exact:
+                at, want = self._routed_exact[ch]
+                if sorted(res[2]) != want and not any(j >= at and tt == t for (j, tt) in self._ext_events):
+                    self.v("C07", f"step {i}: child {ch} ended before started() with {want}; that outcome was handed to the waiting start(), but start() raised {sorted(res[2])}")
+            if ch in started_val and ch not in self._late_started and cancels and 1000 not in cancels:
+                self.v("C07", f"step {i}: child {ch} had called started({started_val[ch]}) while start() was still waiting, yet start() raised the cancellation {cancels} instead of returning the value")
             if ch in started_val:
                 self.flags.add("start_raised_after_started")
             if ch in finished_with and ch not in started_val and not cancels and ch not in self._dirty_finish:
